@@ -114,12 +114,17 @@ Fixpoint nodupb (l : list (list N)) : bool :=
   | x :: t => if in_dec bytes_eq_dec x t then false else nodupb t
   end.
 
-(* l_nm (i32 >= 0), then a `take(l_nm)` of what is left (shorter if the input ends early) *)
+(* l_nm (i32 >= 0), then a `take(l_nm)` of what is left (shorter if the input ends early); after
+   the names have been read the take must have delivered all l_nm bytes (repair d82cb79: a names
+   block shorter than l_nm is UnexpectedEof, not an index with fewer names) *)
 Definition p_names : parser (list (list N)) := fun bs =>
   let? (l, r) := p_i32_nonneg bs in
   match split_nul (firstn (N.to_nat l) r) [] with
   | None => None
-  | Some names => if nodupb names then Some (names, skipn (N.to_nat l) r) else None
+  | Some names =>
+      if nodupb names then
+        if (length r <? N.to_nat l)%nat then None else Some (names, skipn (N.to_nat l) r)
+      else None
   end.
 
 Definition p_header : parser header := fun bs =>
